@@ -125,6 +125,9 @@ func (g graph) expected(entries []string, limit int, sender string) (inboxes map
 	}
 	if s := g[sender]; s != nil {
 		delete(inboxes, s.inbox)
+		if s.stored != "" {
+			delete(inboxes, s.stored)
+		}
 	}
 	return
 }
@@ -165,11 +168,12 @@ var c02alphabet = []c02entry{
 var addrProps = []string{"to", "bto", "cc", "bcc", "audience"}
 
 type c02case struct {
-	entries   []c02entry
-	placement int // 0: all in 'to'; 1: i-th entry into the i-th addressing property; 2: reversed properties
-	k1        []string
-	limit     int
-	entry     string // Send | PostOutbox
+	entries      []c02entry
+	placement    int // 0: all in 'to'; 1: i-th entry into the i-th addressing property; 2: reversed properties
+	k1           []string
+	limit        int
+	entry        string // Send | PostOutbox
+	senderStored bool   // the application also answers InboxForActor for the sender itself
 }
 
 func (c c02case) String() string {
@@ -181,7 +185,11 @@ func (c c02case) String() string {
 	for _, m := range c.k1 {
 		k = append(k, shortID(m))
 	}
-	return fmt.Sprintf("%s placement=%d entries=[%s] K1=[%s] limit=%d", c.entry, c.placement, strings.Join(es, " "), strings.Join(k, " "), c.limit)
+	ss := ""
+	if c.senderStored {
+		ss = " sender-inbox-stored"
+	}
+	return fmt.Sprintf("%s placement=%d entries=[%s] K1=[%s] limit=%d%s", c.entry, c.placement, strings.Join(es, " "), strings.Join(k, " "), c.limit, ss)
 }
 
 func (c c02case) body() M {
@@ -279,16 +287,36 @@ func C02(tier string) int {
 			}
 			for _, k1 := range ks {
 				for _, lim := range ls {
-					cases = append(cases, c02case{es, pl, k1, lim, "Send"})
+					cases = append(cases, c02case{es, pl, k1, lim, "Send", false})
+					namesSender := false
+					for _, e := range es {
+						if e.id == Alice {
+							namesSender = true
+						}
+					}
+					for _, m := range k1 {
+						if m == Alice && touchesCollections(es) {
+							namesSender = true
+						}
+					}
+					if namesSender {
+						cases = append(cases, c02case{es, pl, k1, lim, "Send", true})
+					}
 				}
 			}
 		}
 	}
 	// client POST entry point (subset)
 	for _, es := range seqs(c02alphabet, 2) {
-		cases = append(cases, c02case{es, 1, []string{Carol, gK2}, 2, "PostOutbox"})
+		cases = append(cases, c02case{es, 1, []string{Carol, gK2}, 2, "PostOutbox", false})
+		for _, e := range es {
+			if e.id == Alice {
+				cases = append(cases, c02case{es, 1, []string{Carol, gK2}, 2, "PostOutbox", true})
+				break
+			}
+		}
 	}
-	res.Rule = fmt.Sprintf("federation graphs over {dereferencable actor, embedded actor, actor with stored inbox (remote inbox differing), actor with stored = remote inbox, missing, garbled, unknown-type, Collection K1 with every member sequence of length <= %d over 8 nodes, OrderedCollection K2 = [actor, K1], page P1 = [actor, P1, K2] (cycles), Public in both IRI spellings, the sender}; every ordered sequence of <= %d addressed entries over that 15-entry alphabet, placed in 'to' only / spread over to,bto,cc,bcc,audience / reversed; depth limit %v; entry points Send and client POST; %d runs; plus all two-delivery histories through one actor instance over 2 senders x 5 addressees (first) x 25 addressee pairs (second); oracle: an independent recursive function over the graph description gives the expected inbox set and the IRIs that may be dereferenced; non-trivial = runs in which something was dereferenced or delivered, distinct by (entries, placement, K1, limit)", len(k1s[len(k1s)-1]), maxEntries, limits, len(cases))
+	res.Rule = fmt.Sprintf("federation graphs over {dereferencable actor, embedded actor, actor with stored inbox (remote inbox differing), actor with stored = remote inbox, missing, garbled, unknown-type, Collection K1 with every member sequence of length <= %d over 8 nodes, OrderedCollection K2 = [actor, K1], page P1 = [actor, P1, K2] (cycles), Public in both IRI spellings, the sender (named directly or as a member; with and without an inbox of its own stored by the application)}; every ordered sequence of <= %d addressed entries over that 15-entry alphabet, placed in 'to' only / spread over to,bto,cc,bcc,audience / reversed; depth limit %v; entry points Send and client POST; %d runs; plus all two-delivery histories through one actor instance over 2 senders x 5 addressees (first) x 25 addressee pairs (second); oracle: an independent recursive function over the graph description gives the expected inbox set and the IRIs that may be dereferenced; non-trivial = runs in which something was dereferenced or delivered, distinct by (entries, placement, K1, limit)", len(k1s[len(k1s)-1]), maxEntries, limits, len(cases))
 	res.Assumptions = []string{"order of recipients and how often one IRI is dereferenced are not asserted",
 		"documents that decode to a known non-actor type or to an actor without inbox are outside the alphabet (the statement is silent; C11 covers crashes)",
 		"the stored inbox is consulted for directly addressed actors only, as the code does; collection members with a stored inbox have stored == remote inbox"}
@@ -309,6 +337,9 @@ func C02(tier string) int {
 		for _, c := range cases[lo:hi] {
 			c := c
 			g := baseGraph(c.k1)
+			if c.senderStored {
+				g[Alice].stored = Alice + "/inbox"
+			}
 			sc := &Scenario{Name: c.String(), Kind: ap.Both, Entry: c.entry, URL: outbox(Alice), Body: c.body(),
 				Tweak: func(a *ap.App) { g.install(a); a.MaxDeliverDepth = c.limit }}
 			out := sc.Exec(mc.NewExec(nil), false)
